@@ -7,9 +7,12 @@
 //	  {"case":n,"cls":s,
 //	   "msgs":[{"k":"ipset|policy|profile|wep","pb":<protojson of the felix/proto message>}],   delivery order
 //	   "hostAddrs":[s], "staticFile":s,
-//	   "ref":{"sets","tiers","profiles","hostAddrs","polByMsg"}}      PolicySem JSON (specs/winpol/WinSem.tla)
+//	   "ref":{"sets","eps":[{"tiers","profiles"}],"hostAddrs","polByMsg"}}   PolicySem JSON (specs/winpol/WinSem.tla);
+//	         msgs holds one "wep" + one {"k":"apply"} marker per endpoint (ref.eps order)
 //	VERIF_SEED / VERIF_N        seeded random cases (classes below)
-//	VERIF_NBIG                  cases whose IP sets / port lists cross the 4000-entries-per-rule chunk limit
+//	VERIF_NBIG                  cases whose IP sets / port lists hit (exact multiples) or cross the 4000-entries-per-rule
+//	                            chunk limit; the first four are the exact multiples (1x / 2x, addresses / ports)
+//	VERIF_NMULTI                scenarios with 2-3 endpoints that share policy sets and are programmed one after the other
 //	VERIF_BEH                   {"alphabet":{code:rule},"sets":ipsets,"layouts":[...]} enumerated by TLC (specs/winpol/Gen_Win)
 //
 // Everything exported is a field-by-field copy of the generated protobuf messages; nothing here
@@ -24,7 +27,8 @@
 //	static  as rand, plus a static-rules.json file
 //	svcmix  as rand, egress rules that combine a service (ip,port) set with a protocol / source match
 //	big     chunking: > 4000 addresses and/or ports per rule
-//	regr    four fixed cases with the shapes of the defects found in the pinned tree (always generated)
+//	multi   2-3 endpoints on one dataplane instance, each seeing a part of a shared pool of policies (ref.eps)
+//	regr    fixed cases with the shapes of the defects found in the pinned tree (always generated)
 //	enum    TLC-enumerated small layouts
 package main
 
@@ -65,12 +69,22 @@ type wprof struct {
 	in, out []*proto.Rule
 }
 
+// wep is one workload endpoint of a multi-endpoint scenario: its own view (the tiers / policies / profiles
+// that select it) of the case's shared policies and profiles.
+type wep struct {
+	tiers    []*wtier
+	profiles []*wprof
+}
+
 type wcase struct {
-	id         int
-	cls        string
-	sets       []*polgen.IPSet
-	tiers      []*wtier
-	profiles   []*wprof
+	id       int
+	cls      string
+	sets     []*polgen.IPSet
+	tiers    []*wtier // all policies of the case (each is sent once)
+	profiles []*wprof
+	// eps: nil = one endpoint to which all tiers / profiles apply; otherwise the endpoints are programmed one
+	// after the other (one apply per endpoint) on the SAME dataplane instance
+	eps        []*wep
 	hostAddrs  []string
 	staticFile string
 	lateSets   bool
@@ -275,6 +289,40 @@ func genRandom(id int, seed int64, cls string) *wcase {
 	return c
 }
 
+// genMulti: a random pool of tiers / policies / profiles (as genRandom) and 2-3 endpoints that each see a random
+// part of it (whole tiers missing, single policies missing, fewer profiles), programmed one after the other on
+// one dataplane instance: the same policy set is rendered in a last tier for one endpoint and in a non-last
+// tier for another, before and after each other.
+func genMulti(id int, seed int64) *wcase {
+	c := genRandom(id, seed, "rand")
+	c.cls = "multi"
+	rnd := rand.New(rand.NewSource(seed ^ 0x5eed))
+	for k, n := 0, 2+rnd.Intn(2); k < n; k++ {
+		ep := &wep{}
+		for _, t := range c.tiers {
+			if rnd.Intn(3) == 0 {
+				continue
+			}
+			vt := &wtier{name: t.name, defaultAction: t.defaultAction}
+			for _, p := range t.pols {
+				if rnd.Intn(4) > 0 {
+					vt.pols = append(vt.pols, p)
+				}
+			}
+			if len(vt.pols) > 0 {
+				ep.tiers = append(ep.tiers, vt)
+			}
+		}
+		for _, p := range c.profiles {
+			if rnd.Intn(4) > 0 {
+				ep.profiles = append(ep.profiles, p)
+			}
+		}
+		c.eps = append(c.eps, ep)
+	}
+	return c
+}
+
 func genStatic(rnd *rand.Rand) string {
 	type rule struct {
 		Type            string `json:"Type"`
@@ -363,43 +411,65 @@ func bigPorts(rnd *rand.Rand, n int) []*proto.PortRange {
 	return out
 }
 
+// chunkLimit is the number of addresses / ports felix puts into one HNS rule (policysets.go, ipPortsPerRule);
+// only used to choose list lengths AROUND it (exact multiples, one past, a few hundred past).
+const chunkLimit = 4000
+
 func genBig(id int, seed int64, variant int) *wcase {
 	rnd := rand.New(rand.NewSource(seed))
 	c := &wcase{id: id, cls: "big", hostAddrs: []string{"192.0.2.1/32"}}
-	over := func() int { return 4001 + rnd.Intn(300) }
+	over := func() int { return chunkLimit + 1 + rnd.Intn(300) }
 	r := &proto.Rule{Action: polgen.Pick(rnd, []string{"allow", "deny", "pass"})}
 	r2 := &proto.Rule{Action: "allow", Protocol: polgen.ProtoByName("udp")}
 	egress := false
-	switch variant % 5 {
-	case 0: // source set just over one chunk, ingress
-		s := bigNetSet(rnd, "s:bigsrc", over(), 20)
+	switch variant % 9 {
+	case 0: // source set of EXACTLY one chunk, ingress
+		s := bigNetSet(rnd, "s:bigsrc", chunkLimit, 20)
 		c.sets = append(c.sets, s)
 		r.SrcIpSetIds = []string{s.ID}
-	case 1: // destination ports over one chunk, ingress
+	case 1: // destination ports: EXACTLY two chunks, egress
 		r.Protocol = polgen.ProtoByName("tcp")
-		r.DstPorts = bigPorts(rnd, over())
-	case 2: // destination set over two chunks, egress
-		s := bigNetSet(rnd, "s:bigdst", 8001+rnd.Intn(200), 40)
+		r.DstPorts = bigPorts(rnd, 2*chunkLimit)
+		egress = true
+	case 2: // destination set of EXACTLY two chunks, egress
+		s := bigNetSet(rnd, "s:bigdst", 2*chunkLimit, 40)
 		c.sets = append(c.sets, s)
 		r.DstIpSetIds = []string{s.ID}
 		egress = true
-	case 3: // source set x destination ports: 2 x 2 rules, egress
+	case 3: // destination ports: EXACTLY one chunk, ingress
+		r.Protocol = polgen.ProtoByName("tcp")
+		r.DstPorts = bigPorts(rnd, chunkLimit)
+	case 4: // source set just over one chunk, ingress
+		s := bigNetSet(rnd, "s:bigsrc", over(), 20)
+		c.sets = append(c.sets, s)
+		r.SrcIpSetIds = []string{s.ID}
+	case 5: // destination ports over one chunk, ingress
+		r.Protocol = polgen.ProtoByName("tcp")
+		r.DstPorts = bigPorts(rnd, over())
+	case 6: // destination set over two chunks, egress
+		s := bigNetSet(rnd, "s:bigdst", 2*chunkLimit+1+rnd.Intn(200), 40)
+		c.sets = append(c.sets, s)
+		r.DstIpSetIds = []string{s.ID}
+		egress = true
+	case 7: // source set x destination ports: 2 x 2 rules, egress
 		s := bigNetSet(rnd, "s:bigsrc", over(), 60)
 		c.sets = append(c.sets, s)
 		r.SrcIpSetIds = []string{s.ID}
 		r.Protocol = polgen.ProtoByName("tcp")
 		r.DstPorts = bigPorts(rnd, over())
 		egress = true
-	default: // source ports and source set exactly at / one over the limit, ingress
-		n := 4000 + rnd.Intn(2)
-		s := bigNetSet(rnd, "s:bigsrc", n, 80)
+	default: // source ports and source set at / one below / one over the limit, ingress
+		s := bigNetSet(rnd, "s:bigsrc", chunkLimit-1+rnd.Intn(3), 80)
 		c.sets = append(c.sets, s)
 		r.SrcIpSetIds = []string{s.ID}
 		r.Protocol = polgen.ProtoByName("udp")
-		r.SrcPorts = bigPorts(rnd, 4000+rnd.Intn(2))
+		r.SrcPorts = bigPorts(rnd, chunkLimit-1+rnd.Intn(3))
 	}
 	p := &wpol{kind: "GlobalNetworkPolicy", name: "default.big", govIn: !egress, govOut: egress}
-	other := &proto.Rule{Action: polgen.Pick(rnd, []string{"allow", "deny"})}
+	other := &proto.Rule{Action: "allow"} // decides differently from the chunked rule: its exact extent is visible
+	if r.Action == "allow" {
+		other.Action = "deny"
+	}
 	if egress {
 		p.out = []*proto.Rule{r2, r, other}
 	} else {
@@ -449,7 +519,31 @@ func genRegression(id int) []*wcase {
 				gnp("default.p", []*proto.Rule{tcpPorts("allow", 80)}, nil)}}),
 		// F2: the default tier holds only a staged policy: the profiles still apply
 		mk(4, &wtier{name: "default", defaultAction: "Deny", pols: []*wpol{staged("default.staged", []*proto.Rule{{Action: "deny"}})}}),
+		// shared policy sets: the policy with the pass rule is in the LAST tier of the first endpoint and in a
+		// non-last tier of the second one (and the other way round)
+		sharedPass(id+5, false),
+		sharedPass(id+6, true),
 	}
+}
+
+func sharedPass(id int, reverse bool) *wcase {
+	p := &wpol{kind: "GlobalNetworkPolicy", name: "default.passweb", govIn: true, govOut: true,
+		in:  []*proto.Rule{tcpPorts("deny", 22), tcpPorts("pass", 80, 443), {Action: "allow", Protocol: polgen.ProtoByName("udp")}},
+		out: []*proto.Rule{tcpPorts("pass", 80), {Action: "deny"}}}
+	q := &wpol{kind: "GlobalNetworkPolicy", name: "tier-z.web", govIn: true, govOut: true,
+		in: []*proto.Rule{tcpPorts("allow", 80), tcpPorts("deny", 443)}, out: []*proto.Rule{tcpPorts("allow", 80)}}
+	def := &wtier{name: "default", defaultAction: "Deny", pols: []*wpol{p}}
+	tz := &wtier{name: "tier-z", defaultAction: "Deny", pols: []*wpol{q}}
+	prof := &wprof{name: "prof0", in: []*proto.Rule{{Action: "allow"}}, out: []*proto.Rule{{Action: "allow"}}}
+	last := &wep{tiers: []*wtier{def}, profiles: []*wprof{prof}}        // default is the last rendered tier
+	nonLast := &wep{tiers: []*wtier{def, tz}, profiles: []*wprof{prof}} // default passes on to tier-z
+	c := &wcase{id: id, cls: "regr", tiers: []*wtier{def, tz}, profiles: []*wprof{prof}, hostAddrs: []string{"192.0.2.1/32"}}
+	if reverse {
+		c.eps = []*wep{nonLast, last, nonLast}
+	} else {
+		c.eps = []*wep{last, nonLast, last}
+	}
+	return c
 }
 
 // ---------------------------------------------------------------------------------------------
@@ -587,6 +681,41 @@ func pb(k string, m googleproto.Message) M {
 
 func semRulesOrEmpty(rs []*proto.Rule) []M { return polgen.SemRules(rs) }
 
+func semTiersOf(tiers []*wtier) ([]*proto.TierInfo, []M) {
+	var tis []*proto.TierInfo
+	sem := []M{}
+	for _, t := range tiers {
+		ti := &proto.TierInfo{Name: t.name, DefaultAction: t.defaultAction}
+		st := M{"name": t.name, "defaultAction": t.defaultAction}
+		sin, sout := []M{}, []M{}
+		for _, p := range t.pols {
+			id := &proto.PolicyID{Name: p.name, Namespace: p.ns, Kind: p.kind}
+			if p.govIn {
+				ti.IngressPolicies = append(ti.IngressPolicies, id)
+				sin = append(sin, M{"name": p.name, "staged": p.staged, "rules": semRulesOrEmpty(p.in)})
+			}
+			if p.govOut {
+				ti.EgressPolicies = append(ti.EgressPolicies, id)
+				sout = append(sout, M{"name": p.name, "staged": p.staged, "rules": semRulesOrEmpty(p.out)})
+			}
+		}
+		st["ingress"], st["egress"] = sin, sout
+		sem = append(sem, st)
+		tis = append(tis, ti)
+	}
+	return tis, sem
+}
+
+func semProfilesOf(profiles []*wprof) ([]string, []M) {
+	var ids []string
+	sem := []M{}
+	for _, p := range profiles {
+		ids = append(ids, p.name)
+		sem = append(sem, M{"name": p.name, "ingress": semRulesOrEmpty(p.in), "egress": semRulesOrEmpty(p.out)})
+	}
+	return ids, sem
+}
+
 func (c *wcase) export() M {
 	var setMsgs, polMsgs []M
 	for _, s := range c.sets {
@@ -601,35 +730,16 @@ func (c *wcase) export() M {
 		in, out []*proto.Rule
 	}
 	var pms []pm
-	wep := &proto.WorkloadEndpoint{State: "active", Name: "verif-wep", Ipv4Nets: []string{"10.65.0.2/32"}}
-	semTiers := []M{}
 	for _, t := range c.tiers {
-		ti := &proto.TierInfo{Name: t.name, DefaultAction: t.defaultAction}
-		st := M{"name": t.name, "defaultAction": t.defaultAction}
-		sin, sout := []M{}, []M{}
 		for _, p := range t.pols {
 			id := &proto.PolicyID{Name: p.name, Namespace: p.ns, Kind: p.kind}
 			pol := &proto.Policy{Namespace: p.ns, Tier: t.name, InboundRules: p.in, OutboundRules: p.out}
 			pms = append(pms, pm{msg: pb("policy", &proto.ActivePolicyUpdate{Id: id, Policy: pol}), in: p.in, out: p.out})
-			if p.govIn {
-				ti.IngressPolicies = append(ti.IngressPolicies, id)
-				sin = append(sin, M{"name": p.name, "staged": p.staged, "rules": semRulesOrEmpty(p.in)})
-			}
-			if p.govOut {
-				ti.EgressPolicies = append(ti.EgressPolicies, id)
-				sout = append(sout, M{"name": p.name, "staged": p.staged, "rules": semRulesOrEmpty(p.out)})
-			}
 		}
-		st["ingress"], st["egress"] = sin, sout
-		semTiers = append(semTiers, st)
-		wep.Tiers = append(wep.Tiers, ti)
 	}
-	semProfiles := []M{}
 	for _, p := range c.profiles {
 		pms = append(pms, pm{msg: pb("profile", &proto.ActiveProfileUpdate{Id: &proto.ProfileID{Name: p.name},
 			Profile: &proto.Profile{InboundRules: p.in, OutboundRules: p.out}}), in: p.in, out: p.out})
-		wep.ProfileIds = append(wep.ProfileIds, p.name)
-		semProfiles = append(semProfiles, M{"name": p.name, "ingress": semRulesOrEmpty(p.in), "egress": semRulesOrEmpty(p.out)})
 	}
 	for _, x := range pms {
 		polMsgs = append(polMsgs, x.msg)
@@ -640,9 +750,21 @@ func (c *wcase) export() M {
 	} else {
 		msgs = append(append(msgs, setMsgs...), polMsgs...)
 	}
-	msgs = append(msgs, pb("wep", &proto.WorkloadEndpointUpdate{
-		Id:       &proto.WorkloadEndpointID{OrchestratorId: "k8s", WorkloadId: "ns1/verif-pod", EndpointId: "eth0"},
-		Endpoint: wep}))
+	eps := c.eps
+	if eps == nil {
+		eps = []*wep{{tiers: c.tiers, profiles: c.profiles}}
+	}
+	semEps := []M{}
+	for k, ep := range eps {
+		tis, semTiers := semTiersOf(ep.tiers)
+		profIDs, semProfiles := semProfilesOf(ep.profiles)
+		msgs = append(msgs, pb("wep", &proto.WorkloadEndpointUpdate{
+			Id: &proto.WorkloadEndpointID{OrchestratorId: "k8s", WorkloadId: fmt.Sprintf("ns1/verif-pod%d", k), EndpointId: "eth0"},
+			Endpoint: &proto.WorkloadEndpoint{State: "active", Name: fmt.Sprintf("verif-wep%d", k), Tiers: tis, ProfileIds: profIDs,
+				Ipv4Nets: []string{fmt.Sprintf("10.65.0.%d/32", 2+k)}}}))
+		msgs = append(msgs, M{"k": "apply", "pb": M{}})
+		semEps = append(semEps, M{"tiers": semTiers, "profiles": semProfiles})
+	}
 	polByMsg := M{"_none": M{"ingress": []M{}, "egress": []M{}}}
 	off := 0
 	if !c.lateSets {
@@ -664,8 +786,7 @@ func (c *wcase) export() M {
 		host = []string{}
 	}
 	return M{"case": c.id, "cls": c.cls, "msgs": msgs, "hostAddrs": host, "staticFile": c.staticFile,
-		"ref": M{"sets": polgen.SemIPSets(c.sets), "tiers": semTiers, "profiles": semProfiles, "hostAddrs": hostC,
-			"polByMsg": polByMsg}}
+		"ref": M{"sets": polgen.SemIPSets(c.sets), "eps": semEps, "hostAddrs": hostC, "polByMsg": polByMsg}}
 }
 
 func envInt(k string, def int) int {
@@ -731,10 +852,19 @@ func main() {
 		id++
 		emit(genRandom(id, seed*1000003+int64(i), classes[i%len(classes)]))
 	}
+	id = 400000
+	for i, nm := 0, envInt("VERIF_NMULTI", 0); i < nm; i++ {
+		id++
+		emit(genMulti(id, seed*15485863+int64(i)))
+	}
 	id = 200000
 	for i := 0; i < nbig; i++ {
 		id++
-		emit(genBig(id, seed*7919+int64(i), int(seed)+i))
+		variant := i // 0..3 = the exact multiples of the chunk size, always present
+		if i >= 4 {
+			variant = 4 + (int(seed)+i)%5
+		}
+		emit(genBig(id, seed*7919+int64(i), variant))
 	}
 	if err := w.Flush(); err != nil {
 		panic(err)
